@@ -5,7 +5,7 @@
    destructor panicked during the drop: only a leak). *)
 From Coq Require Import ZArith List Bool Lia Permutation.
 From MV Require Import Ast Eval Scalar Machine.
-From MV.Proofs Require Import Arith Logic Prim View OpsLocal Guards Grow CapHistory Drops Retain Sentinel Core Refine.
+From MV.Proofs Require Import Arith Logic Prim View OpsLocal Guards Grow CapHistory Drops Retain Sentinel Core Refine DrainIt IntoIt.
 Import ListNotations.
 Open Scope Z_scope.
 
@@ -37,7 +37,7 @@ Section Life.
                    (vec_sentinel s v /\ heap s' = heap s /\ events s' = events s \/
                     exists b bl, vec_at s v b bl /\ nth_error (heap s') b = Some (kill bl) /\
                                  exists evs, events s' = EvDealloc (b_size bl) (b_align bl) :: evs))
-      (fun s' => dropped_all s s' v l /\ heap s' = heap s).
+      (fun s' => dropped_all s s' v l /\ heap s' = heap s /\ l <> []).
   Proof.
     intros [[Hs ->]|(b & bl & Hv & Hb & Ho & Hl)].
     - (* never allocated: nothing to destroy, nothing to free *)
@@ -60,7 +60,7 @@ Section Life.
                    exists evs, events s1 = EvDealloc (b_size bl) (b_align bl) :: evs).
       set (Qp1 := fun (s1 : state) =>
                    (forall e, In e l -> ledger s1 e = Dropped) /\ only_changes s s1 l /\ vecs s1 = vecs s /\
-                   heap s1 = heap s).
+                   heap s1 = heap s /\ l <> []).
       assert (HA : post (drop_body cfg v s) Q1 Qp1).
       { unfold drop_body.
         rewrite (bind_val _ _ _ _ _ (is_default_at _ _ _ _ Hv)).
@@ -68,14 +68,20 @@ Section Life.
         { rewrite (bind_val _ _ _ _ _ (vec_handle_at _ _ _ _ Hv)). apply (hdr_block_at cfg _ _ _ _ Hcfg Hv Hb). }
         rewrite (bind_val _ _ _ _ _ Hx). cbn [snd].
         rewrite (bind_val _ _ _ _ _ Hd). rewrite (bind_val _ _ _ _ _ Hread). rewrite Hl.
+        assert (Hdl : post (drop_list cfg l s) (fun _ s1 => destroyed s s1 l) (fun s1 => destroyed s s1 l /\ l <> [])).
+        { destruct l as [|e0 l0].
+          - simpl. apply destroyed_nil.
+          - eapply post_weaken; [apply (drop_list_spec cfg Htracked (e0 :: l0) s)| |].
+            + rewrite <- Hl. exact (ow_nodup _ _ Ho).
+            + rewrite <- Hl. exact (ow_live _ _ Ho).
+            + intros u s1 H. exact H.
+            + intros s1 H. split; [exact H|discriminate]. }
         eapply post_bind.
-        - eapply post_weaken; [apply (drop_list_spec cfg Htracked l s)| |].
-          + rewrite <- Hl. exact (ow_nodup _ _ Ho).
-          + rewrite <- Hl. exact (ow_live _ _ Ho).
+        - eapply post_weaken; [exact Hdl| |].
           + intros u s1 H. exact H.
-          + intros s1 Hds. unfold Qp1. split; [exact (ds_in _ _ _ Hds)|]. split.
+          + intros s1 [Hds Hne]. unfold Qp1. split; [exact (ds_in _ _ _ Hds)|]. split.
             * split; [exact (ds_next _ _ _ Hds)|exact (ds_out _ _ _ Hds)].
-            * split; [exact (ds_vecs _ _ _ Hds)|exact (ds_heap _ _ _ Hds)].
+            * split; [exact (ds_vecs _ _ _ Hds)|]. split; [exact (ds_heap _ _ _ Hds)|exact Hne].
         - intros u s1 Hds.
           rewrite (bo_layout _ _ Hb). rewrite lift_opt_some, bind_ret. cbn [fst snd].
           assert (Hvh1 : vec_handle v s1 = (Val (At b 0), s1)).
@@ -98,9 +104,9 @@ Section Life.
         * constructor; [intros e He; rewrite G1; exact (H1 e He)| |exact G5].
           destruct H2 as [Hn Hled]. split; [congruence|]. intros e He. rewrite G1. exact (Hled e He).
         * right. exists b, bl. split; [exact Hv|]. split; [rewrite G3; exact H4|]. exists evs. rewrite G4. exact H5.
-      + intros s1 (H1 & H2 & H3 & H4).
+      + intros s1 (H1 & H2 & H3 & H4 & Hne).
         destruct (set_handle_none s1 v) as (s2 & E & G1 & G2 & G3 & G4 & G5). rewrite E. simpl.
-        split; [|congruence].
+        split; [|split; [congruence|exact Hne]].
         constructor; [intros e He; rewrite G1; exact (H1 e He)| |exact G5].
         destruct H2 as [Hn Hled]. split; [congruence|]. intros e He. rewrite G1. exact (Hled e He).
   Qed.
@@ -133,6 +139,64 @@ Section Life.
         - intros e He. right. exact He. }
       eapply post_weaken; [apply (drop_vec_abs s' v l' Hab)| |].
       + intros u' s'' [H _]. apply Hfin. exact H.
-      + intros s'' [H _]. apply Hfin. exact H.
+      + intros s'' (H & _ & _). apply Hfin. exact H.
+  Qed.
+
+  (* ------------------------------------------------------------------ dropping an IntoIter *)
+  (* Drop for IntoIter at ANY point of its consumption, under ANY set of panicking destructors: every
+     element it still holds is destroyed (once), nothing else is touched, and the block is given back
+     to the allocator with its layout -- ALSO when a destructor panics (the length is cut to 0 before
+     the elements are dropped, and the embedded vector is dropped by the unwinding). *)
+  Lemma into_drop_spec s it b bl off p :
+    into_inv cfg s it b bl off p ->
+    NoDup (remaining bl p) -> (forall e, In e (remaining bl p) -> ledger s e = Live) ->
+    let Q := fun s' =>
+      (forall e, In e (remaining bl p) -> ledger s' e = Dropped) /\
+      only_changes s s' (remaining bl p) /\
+      nth_error (vecs s') (i_vec it) = Some None /\
+      nth_error (heap s') b = Some (kill (with_hdr bl 0 (h_cap bl) (h_align bl))) /\
+      exists evs, events s' = EvDealloc (b_size bl) (b_align bl) :: evs in
+    post (into_drop cfg it s) (fun _ s' => Q s') Q.
+  Proof.
+    intros [Hv Hb Hco Hp Hbd Hi] Hnd Hlive Q.
+    pose proof (bo_len _ _ Hb) as Hlen.
+    unfold into_drop. rewrite (bind_val _ _ _ _ _ (is_default_at _ _ _ _ Hv)).
+    set (bl0 := with_hdr bl 0 (h_cap bl) (h_align bl)).
+    set (s1 := upd_block s b bl0).
+    assert (Hb0 : block_ok cfg bl0) by (apply block_ok_with_len; [exact Hb|lia]).
+    assert (Hv1 : vec_at s1 (i_vec it) b bl0) by (apply vec_at_upd with (bl := bl); exact Hv).
+    assert (Hread : read_list cfg (i_pos it) (h_len bl) s1 = (Val (remaining bl p), s1)).
+    { rewrite Hp. rewrite (read_list_at cfg Hcfg s1 b bl0 off p (h_len bl) (proj2 Hv1) Hb0 Hco); try lia; [unfold remaining, window; replace (p + h_len bl - p) with (h_len bl) by lia; reflexivity| |].
+      - simpl. lia.
+      - intros k Hk. simpl. apply Hi. exact Hk. }
+    (* the body: len, set_len 0, read, drop *)
+    assert (HA : post ((l <- len (i_vec it) ;; set_len (i_vec it) 0 ;;; es <- read_list cfg (i_pos it) l ;; drop_list cfg es) s)
+                      (fun _ s2 => destroyed s1 s2 (remaining bl p)) (fun s2 => destroyed s1 s2 (remaining bl p))).
+    { rewrite (bind_val _ _ _ _ _ (len_at cfg _ _ _ _ Hcfg Hv Hb)).
+      rewrite (bind_val _ _ _ _ _ (set_len_at cfg s (i_vec it) b bl 0 Hcfg Hv Hb)). fold bl0. fold s1.
+      rewrite (bind_val _ _ _ _ _ Hread).
+      apply (drop_list_spec cfg Htracked); [exact Hnd|exact Hlive]. }
+    (* the cleanup: the embedded vector (now of length 0) is dropped *)
+    assert (HB : forall s2, destroyed s1 s2 (remaining bl p) -> post (drop_vec cfg (i_vec it) s2) (fun _ s' => Q s') (fun _ => False)).
+    { intros s2 Hds.
+      assert (Hv2 : vec_at s2 (i_vec it) b bl0).
+      { destruct Hv1 as [A B]. split; [rewrite (ds_vecs _ _ _ Hds); exact A|rewrite (ds_heap _ _ _ Hds); exact B]. }
+      assert (Hab : vabs s2 (i_vec it) []).
+      { right. exists b, bl0. split; [exact Hv2|]. split; [exact Hb0|]. split; [|reflexivity].
+        constructor; simpl; [intros i Hi0; lia|constructor|intros e []|intros e []]. }
+      eapply post_weaken; [apply (drop_vec_abs s2 (i_vec it) [] Hab)| |intros s3 (_ & _ & Hne); apply Hne; reflexivity].
+      intros u s3 [[_ [Hn3 Hl3] Hname] Hblk]. unfold Q.
+      split; [intros e He; rewrite (Hl3 e ltac:(intros [])); exact (ds_in _ _ _ Hds e He)|].
+      split.
+      { split; [rewrite Hn3, (ds_next _ _ _ Hds); reflexivity|].
+        intros e He. rewrite (Hl3 e ltac:(intros [])). rewrite (ds_out _ _ _ Hds e He). reflexivity. }
+      split; [exact Hname|].
+      destruct Hblk as [(Hsn & _)|(b' & bl' & Hv' & Hk & evs & Hev)].
+      - exfalso. unfold vec_sentinel in Hsn. destruct Hv2 as [A _]. congruence.
+      - destruct Hv' as [A B], Hv2 as [A2 B2]. assert (b' = b) by congruence. subst b'.
+        assert (bl' = bl0) by congruence. subst bl'. split; [exact Hk|]. exists evs. exact Hev. }
+    eapply post_try_finally; [exact HA| |].
+    - intros u s2 Hds. eapply post_weaken; [apply (HB s2 Hds)|auto|intros s3 []].
+    - intros s2 Hds. eapply post_weaken; [apply (HB s2 Hds)|auto|intros s3 []].
   Qed.
 End Life.
